@@ -19,7 +19,9 @@ WORK = VERIF / ".work"
 DRV_DIR = VERIF / "engine" / "vdrv"
 DRV = DRV_DIR / "target" / "release" / "vdrv"
 WITNESS = VERIF / "witness"
-SCRATCH_ROOT = Path(os.environ.get("VERIF_SCRATCH", "/var/tmp")) / f"verif-scratch-{os.getuid()}"
+# one scratch area per installation of the machinery: extraction is serialised by a lock under WORK, so two copies of /verif
+# (e.g. a snapshot used for a long corpus run) must not share a scratch directory
+SCRATCH_ROOT = Path(os.environ.get("VERIF_SCRATCH", "/var/tmp")) / f"verif-scratch-{os.getuid()}-{hashlib.sha256(str(VERIF).encode()).hexdigest()[:8]}"
 
 MEMBERS_LIB = [
     "metrics",
